@@ -67,6 +67,8 @@ def run_conc(prop, tier, seed, replay, extra=None, gate0=None):
     gate = {'ok': True, 'obligations': 0, 'discharged': 0, 'failed': None, 'axioms': [], 'checker_cmd': '', 'gen': {}}
     if gate0 is not None:
         gate = gate0
+    if prop == 'C18':
+        gate = common.proof_gate('C18', ['Model/Flush.v', 'Proofs/FlushProps.v', 'Props/C18.v'])
     if prop == 'C06':
         gate = common.proof_gate('C06', ['Model/Cache.v', 'Proofs/CacheProps.v', 'Props/C06.v'])
     rc, out = qv.harness_build()
@@ -123,6 +125,9 @@ def run_conc(prop, tier, seed, replay, extra=None, gate0=None):
             finds.append((f[0], c, f[1], f[2], f[3]))
         if prop == 'C18':
             for bi, b in enumerate(c['batches']):
+                if b.get('need_flush') == '0' and b.get('dirty') and any(b['dirty']):
+                    # seen through the hook Qcow2Dev::verif_dirty_counts: the flag is false while metadata is dirty in ram
+                    finds.append(('flag', c, 'need_flush_meta() returned false after batch %d although dirty metadata is cached (dirty L2 slices, refblock slices, L1 blocks, reftable blocks = %s)' % (bi, b['dirty']), bi, ''))
                 if b.get('need_flush') == '0':
                     p = os.path.join(d, '%s.q%d.img' % (c['cid'], bi))
                     if os.path.exists(p):
